@@ -111,19 +111,21 @@ HARNESSES.append(
                   {"ANSWER": 0, "NG": 2, "DSZ": 64, "FDB": 0, "LAST": 8, "DISCARD": None, "_tier": "thorough"},
                   {"ANSWER": 0, "NG": 2, "DSZ": 64, "FDB": 1, "LAST": 8, "_tier": "thorough"},
                   {"ANSWER": 0, "NG": 3, "DSZ": 32, "FDB": 1, "LAST": 3, "DISCARD": None, "_tier": "thorough"}],
+         cbmc_flags=["--max-field-sensitivity-array-size", "256"],
          unwind=4, unwindset=P5_UW + ["io_channel_discard.0:26", "check_block_bitmaps.0:26", "check_block_bitmaps.1:1", "check_block_bitmaps.2:5"],
-         backends=["default", "kissat"],
+         backends=["default", "kissat"], cap_quick=300,
          bound="2 groups of 8 blocks (the last 1..8 long), first data block 0/1, every bit of both bitmaps, every descriptor byte, "
                "superblock count, ro_compat and fs->flags symbolic; e2fsck -n"))
 HARNESSES.append(
     dict(name="p5inodes", src="p5inodes.c", extra_src=["lib/ext2fs/blknum.c"],
          funcs=["check_inode_bitmaps", "print_bitmap_problem", "ext2fs_bg_free_inodes_count", "ext2fs_bg_used_dirs_count", "ext2fs_bg_flags_test"],
-         configs=[{"ANSWER": 0, "NG": 2, "DSZ": 32, "CSUM": 0}, {"ANSWER": 0, "NG": 2, "DSZ": 32, "CSUM": 1},
-                  {"ANSWER": 0, "NG": 2, "DSZ": 64, "CSUM": 1, "_tier": "thorough"}, {"ANSWER": 0, "NG": 3, "DSZ": 32, "CSUM": 0, "_tier": "thorough"}],
-         cbmc_flags=["--object-bits", "10"],
+         configs=[{"ANSWER": 0, "NG": 3, "IPG": 4, "DSZ": 32, "CSUM": 0}, {"ANSWER": 0, "NG": 2, "IPG": 4, "DSZ": 32, "CSUM": 1},
+                  {"ANSWER": 0, "NG": 2, "IPG": 8, "DSZ": 32, "CSUM": 0, "_tier": "thorough"}, {"ANSWER": 0, "NG": 2, "IPG": 8, "DSZ": 32, "CSUM": 1, "_tier": "thorough"},
+                  {"ANSWER": 0, "NG": 2, "IPG": 8, "DSZ": 64, "CSUM": 1, "_tier": "thorough"}, {"ANSWER": 0, "NG": 3, "IPG": 8, "DSZ": 32, "CSUM": 0, "_tier": "thorough"}],
+         cbmc_flags=["--object-bits", "10", "--max-field-sensitivity-array-size", "256"],
          unwind=4, unwindset=P5_UW + ["check_inode_bitmaps.0:26", "check_inode_bitmaps.1:1", "check_inode_bitmaps.2:5"],
-         backends=["default", "kissat"],
-         bound="2 groups of 8 inodes, every bit of inode_used_map / inode_dir_map / fs->inode_map, every descriptor byte, "
+         backends=["default", "kissat"], cap_quick=300,
+         bound="2-3 groups of 4 inodes (thorough: 8), every bit of inode_used_map / inode_dir_map / fs->inode_map, every descriptor byte, "
                "s_free_inodes_count and fs->flags symbolic; with and without group-descriptor checksums (INODE_UNINIT honoured); e2fsck -n"))
 P4_UW = ["main.%d:16" % i for i in range(12)] + ["fix_problem.0:15", "vf_bit.0:15", "ext2fs_unmark_generic_bmap.0:15", "vf_reset.0:15", "e2fsck_pass4.0:15"]
 HARNESSES.append(
